@@ -169,7 +169,7 @@ pub fn all() -> Vec<Spec> {
             id: "C14",
             run: c14::run,
             level: "fault_enumeration",
-            rule: "fault scripts enumerated completely: quick (lazy|eager) x connect outcomes {fail, ok}^<=3 x operations {call, kill}^<=4 = 1800 scripts; thorough outcomes ^<=5 x operations {call, kill, two calls}^<=6 = 137592 scripts; plus sampled longer scripts (<=8 outcomes, <=10 operations incl. back-to-back calls); a scripted connector consumes one outcome per invocation and hands the peer half of a fragmenting in-memory pipe to a real tonic server; `kill` resets the live pipe (wakes parked I/O); a generated-client call is issued at each quiescent point of a paused clock. Oracle = reference model driven by the connector invocations observed during each call (live => Ok with no attempt; attempt ok => Ok; attempts all failed => UNAVAILABLE; no attempt while disconnected => violation; eager initial failure => Err after exactly one invocation; every call resolves within 60 virtual seconds; Ok => handler ran once). Fingerprint = lazy/eager + sequence of model transitions. Non-trivial = contains a kill, a failed attempt or an eager initial failure.",
+            rule: "fault scripts enumerated completely: quick (lazy|eager) x connect outcomes {fail, ok}^<=3 x operations {call, kill}^<=4 = 1800 scripts; thorough outcomes ^<=5 x operations {call, kill, two calls}^<=6 = 137592 scripts; plus sampled longer scripts (<=8 outcomes, <=10 operations incl. back-to-back calls, two calls issued at the same instant on clones of the client, and a slow call whose connection the peer drops while it is in flight) under random Endpoint options; a scripted connector consumes one outcome per invocation and hands the peer half of a fragmenting in-memory pipe to a real tonic server; `kill` resets the live pipe (wakes parked I/O); a generated-client call is issued at each quiescent point of a paused clock. Oracle = reference model driven by the connector invocations observed during each call (live => Ok with no attempt; attempt ok => Ok; attempts all failed => UNAVAILABLE; no attempt while disconnected => violation; eager initial failure => Err after exactly one invocation; every call resolves within 60 virtual seconds; Ok => handler ran once; concurrent pair: failed calls <= failed attempts observed meanwhile, i.e. no failure is handed to two calls; call killed in flight: resolves, with an error). Fingerprint = lazy/eager + sequence of model transitions. Non-trivial = contains a kill, a failed attempt or an eager initial failure.",
             exhaustive: false,
             assumptions: COMMON_ASSUMPTIONS,
         },
